@@ -107,12 +107,12 @@ type EchPlan struct {
 	// OwnDialer (with ViaTransport): the application installs a Dialer value of
 	// its own in Transport.Dialer instead of changing the fields of the one
 	// NewTransport made.
-	OwnDialer    bool `json:"own_dialer,omitempty"`
+	OwnDialer bool `json:"own_dialer,omitempty"`
 	// Again (with ViaTransport, a caller config): after the first request the
 	// application changes Transport.TLSConfig in place (a ServerName pin and a
 	// config list of its own) and sends the request once more; the second
 	// request's dials are judged by the new settings.
-	Again bool `json:"again,omitempty"`
+	Again        bool `json:"again,omitempty"`
 	ViaTransport bool `json:"via_transport,omitempty"`
 	// CallerMaxVersion: the caller pins tls.Config.MaxVersion (a config written
 	// for a legacy peer); what crypto/tls makes of that together with an ECH
